@@ -45,6 +45,26 @@ fn main() {
                         b.reset();
                         let v: BVec<()> = BVec::new_in(&b);
                         drop(v);
+                        // zero-sized blocks released again on an arena that holds no chunk: a failing slice fill of
+                        // a zero-sized element type (dealloc of the "last allocation"), collections of zero-sized
+                        // elements growing, shrinking, being converted and dropped
+                        // (a fresh arena: `b` may hold a chunk by now)
+                        let b = Bump::new();
+                        let _ = b.alloc_slice_try_fill_with::<(), _, u8>(3, |i| if i == 1 { Err(7) } else { Ok(()) });
+                        let _ = b.alloc_slice_try_fill_iter((0..2).map(|i| if i == 1 { Err::<(), u8>(7) } else { Ok(()) }));
+                        let _ = b.alloc_slice_fill_iter([(), ()].into_iter());
+                        let _ = b.try_alloc_try_with(|| Err::<(), u8>(1));
+                        let mut z: BVec<()> = BVec::with_capacity_in(4, &b);
+                        z.push(());
+                        z.extend_from_slice(&[(), ()]);
+                        z.pop();
+                        z.shrink_to_fit();
+                        let bx = z.into_boxed_slice();
+                        drop(bx);
+                        let zb = bumpalo::boxed::Box::new_in((), &b);
+                        drop(zb);
+                        let st = bumpalo::collections::String::new_in(&b);
+                        drop(st);
                         drop(b);
                         let c: Bump<16> = Bump::with_min_align();
                         c.alloc(());
@@ -54,6 +74,41 @@ fn main() {
             for h in hs {
                 h.join().unwrap();
             }
+        }
+        "send" => {
+            // C05 support: every value type of the crate that is `Send` is moved to another thread and dropped there
+            // while the owning thread keeps allocating from the arena the value came from.  These programs compile
+            // (the types are `Send`); they are race-free exactly when those values never reach the arena.
+            let b = Bump::new();
+            for round in 0..2u64 {
+                let mut v = BVec::new_in(&b);
+                for i in 0..8u64 {
+                    v.push(i + round);
+                }
+                let mut it = v.into_iter();
+                it.next();
+                let bx = bumpalo::boxed::Box::new_in(round, &b);
+                let bs: bumpalo::boxed::Box<[u64]> = {
+                    let mut w = BVec::new_in(&b);
+                    w.extend_from_slice(&[1, 2, 3]);
+                    w.into_boxed_slice()
+                };
+                let mut dv = BVec::new_in(&b);
+                dv.extend_from_slice(&[1u64, 2, 3, 4, 5]);
+                thread::scope(|s| {
+                    let d = dv.drain(1..3);
+                    s.spawn(move || drop(it));
+                    s.spawn(move || drop(bx));
+                    s.spawn(move || drop(bs));
+                    s.spawn(move || drop(d));
+                    for i in 0..40u64 {
+                        b.alloc(i);
+                        let _ = b.alloc_str("x");
+                    }
+                });
+                drop(dv);
+            }
+            println!("send ok");
         }
         _ => {
             // own arena per thread, concurrently
